@@ -75,6 +75,23 @@ func (self *MaxJobsSemaphore) Acquire(metadata *Metadata, nonblocking bool) bool
 	return true
 }
 
+// Re-add a job which was already submitted, for example by a previous mrp
+// process, to this semaphore.
+//
+// Unlike Acquire, this accepts a job which is already running, and it never
+// waits for capacity, since the job is already using it.
+func (self *MaxJobsSemaphore) Reattach(metadata *Metadata) {
+	if metadata == nil {
+		return
+	}
+	if st, ok := metadata.getState(); !ok || st != Queued && st != Running {
+		return
+	}
+	self.lock.Lock()
+	defer self.lock.Unlock()
+	self.running[metadata] = struct{}{}
+}
+
 // Clear this semaphore and release all pending acquisitions.
 //
 // The semaphore can no longer be used after being cleared this way.
